@@ -38,7 +38,7 @@ def scan_forbidden():
                 bad.append("%s:%d: %s outside a section" % (os.path.relpath(path, common.VERIF), ln, t.split()[0]))
     return bad
 
-def check_property(pid, extra_files=()):
+def check_property(pid, extra_files=(), tier="quick"):
     """Returns dict(ok, obligations, discharged, theorems, axioms, detail, checker_cmd)."""
     ensure_makefile()
     rel = "Properties/Properties_%s.v" % pid
@@ -78,5 +78,15 @@ def check_property(pid, extra_files=()):
         res["detail"] = "theorems depend on axioms: %s" % ", ".join(bad_ax); return res
     if res["forbidden"]:
         res["detail"] = "forbidden constructs in the development: " + "; ".join(res["forbidden"][:5]); return res
+    if tier == "thorough":
+        # independent re-check of the compiled property file and everything it depends on
+        r = subprocess.run(["timeout", "3000", "coqchk", "-o", "-silent", "-Q", ".", "FFSM2", "FFSM2.Properties.Properties_%s" % pid],
+                           cwd=common.COQ, capture_output=True, text=True)
+        out = r.stdout + r.stderr
+        m = re.search(r"\* Axioms:\s*(.*?)\n\s*\n", out, flags=re.S)
+        res["coqchk"] = dict(exit_status=r.returncode, axioms=(m.group(1).strip() if m else "?"))
+        res["checker_cmd"] += " ; coqchk -o -silent -Q coq FFSM2 FFSM2.Properties.Properties_%s" % pid
+        if r.returncode != 0 or not m or m.group(1).strip() != "<none>":
+            res["detail"] = "coqchk does not accept the property file (or reports axioms): " + out[-1500:]; return res
     res["ok"] = True; res["discharged"] = len(theorems)
     return res
